@@ -815,3 +815,55 @@ def validator_accepts_exactly(eng, fn: FunctionInfo, spec_name: str) -> Optional
         elif not want(v) and vd[i] != "ValueError":
             bad.append(f"refuses {v!r} with {vd[i]}, not ValueError")
     return bad
+
+
+def dump_pem_verdicts(eng) -> Optional[List[Tuple[str, str]]]:
+    """Fold rfc7517.pem.dump_pem_key on a grid of (encoding, private, password) with the native key symbolic: the call it makes on the key must
+    be  private_bytes(encoding=E, format=PKCS8, encryption_algorithm=NoEncryption() | BestAvailableEncryption(<octets of the password>))  when
+    `private` is truthy and  public_bytes(encoding=E, format=SubjectPublicKeyInfo)  otherwise, with E = Encoding.PEM for None / "PEM",
+    Encoding.DER for "DER", and ValueError for every other encoding value.  Returns [(clause, problem)] ("dispatch" = the encoding choice,
+    "branch" = private / public serialisation); None when it does not fold or a test was decided one way only (DESIGN 11.11)."""
+    import re
+    from ..fold import FuncVal, ExtVal, FoldRaise, is_unknown
+    F = eng.folder
+    fn = eng.prog.func("rfc7517.pem:dump_pem_key")
+    if len(fn.pos_params) < 4:
+        return None
+    problems: List[Tuple[str, str]] = []
+    F.start_trace()
+    try:
+        for enc in (None, "PEM", "DER", "pem", "", "PEMX", "DE", 1):
+            for priv in (True, False, None, 1, 0):
+                for pw in (None, "pw", b"pw", ""):
+                    try:
+                        r = F.call(FuncVal(fn, None, None), [ExtVal("KEY"), enc, priv, pw], {})
+                        if is_unknown(r):
+                            return None
+                        got = repr(r).replace("ext:", "").replace("cryptography.hazmat.primitives.serialization.", "")
+                        m = re.fullmatch(r"typing\.cast\(.*?, (KEY\..*)\)", got)
+                        got = m.group(1) if m else got
+                    except FoldRaise as ex:
+                        got = "raise " + (getattr(ex, "name", "") or "?")
+                    E = {None: "Encoding.PEM", "PEM": "Encoding.PEM", "DER": "Encoding.DER"}.get(enc) if not isinstance(enc, int) or enc is None else None
+                    where = f"encoding={enc!r}, private={priv!r}, password={pw!r}"
+                    if E is None:
+                        if got != "raise ValueError":
+                            problems.append(("dispatch", f"an unknown encoding is not refused with ValueError ({where}: {got[:80]})"))
+                        continue
+                    if got.startswith("raise"):
+                        problems.append(("dispatch", f"a documented encoding value is refused ({where}: {got})"))
+                        continue
+                    if priv:
+                        pwb = pw.encode() if isinstance(pw, str) else pw
+                        encn = "NoEncryption()" if pw is None else f"BestAvailableEncryption({pwb!r})"
+                        want = f"KEY.private_bytes(encoding={E}, encryption_algorithm={encn}, format=PrivateFormat.PKCS8)"
+                    else:
+                        want = f"KEY.public_bytes(encoding={E}, format=PublicFormat.SubjectPublicKeyInfo)"
+                    if got != want:
+                        clause = "dispatch" if got.replace("Encoding.PEM", "E").replace("Encoding.DER", "E") == want.replace("Encoding.PEM", "E").replace("Encoding.DER", "E") else "branch"
+                        problems.append((clause, f"{where}: serialises with `{got[:140]}`, expected `{want}`"))
+    except AnalysisError:
+        return None
+    finally:
+        sided = F.one_sided(ignore=("util:to_bytes",))  # the codec is C19's business
+    return None if sided else problems
